@@ -32,7 +32,7 @@ def bounds(tier):
 
 
 def cases(tier, seed):
-    out = []
+    out = [{"part": "retry"}]
     for t in SDO_TYPES:
         for fi in range(len(FACTORS)):
             out.append({"part": "phys", "type": t, "factor": fi, "transport": "sdo"})
@@ -251,8 +251,66 @@ def run_bits(case, st):
     st.sample({"bits": case}, cap=2)
 
 
+def run_retry(case, st):
+    """A write through a view is refused once (the device says no); the identical assignment repeated on the same, held
+    view object must reach the device; a refused write must not change what the views report."""
+    import canopen
+    for view in ("raw", "phys", "desc", "bits-name", "bits-slice", "bits-list", "bits-int"):
+        for base in (0x0100, 0xFFFF, 0x0000):
+            for hold in (True, False):
+                h = Harness("UNSIGNED16", factor=2, descriptions={0x0101: "on", 0x0100: "off", 0xFFFE: "odd"},
+                            bitdefs={"LOW": [0], "NIB": [4, 5, 6, 7]}, transport="sdo")
+                armed = {"on": True}
+
+                def veto(index, subindex, od, data, _a=armed):
+                    if _a["on"]:
+                        _a["on"] = False
+                        raise canopen.SdoAbortedError(0x08000022)
+                h.node.add_write_callback(veto)
+                h.set_raw_bytes(base)
+                var = h.var
+                bits = var.bits if hold else None
+                key = {"bits-name": "LOW", "bits-slice": slice(4, 8), "bits-list": [4, 5, 6, 7], "bits-int": 0}.get(view)
+
+                def assign():
+                    if view == "raw":
+                        var.raw = 0x0101
+                    elif view == "phys":
+                        var.phys = 0x0202
+                    elif view == "desc":
+                        var.desc = "on"
+                    else:
+                        (bits if hold else var.bits)[key] = 1 if view in ("bits-name", "bits-int") else 0xA
+                want = {"raw": 0x0101, "phys": 0x0101, "desc": 0x0101, "bits-name": base | 1, "bits-int": base | 1,
+                        "bits-slice": (base & ~0xF0) | 0xA0, "bits-list": (base & ~0xF0) | 0xA0}[view]
+                st.evaluations += 1
+                st.nontrivial.add(("retry", view, base, hold))
+                rc = dict(case, view=view, base=base, hold=hold)
+                try:
+                    assign()
+                    st.violation(f"C20:retry:{view}:refusal-not-reported", rc, "SdoAbortedError", "returned normally")
+                    continue
+                except canopen.SdoAbortedError:
+                    pass
+                except Exception as e:  # noqa: BLE001
+                    st.violation(f"C20:retry:{view}:raises:{type(e).__name__}", rc, "SdoAbortedError", repr(e)[:100])
+                    continue
+                if h.raw() != base:
+                    st.violation(f"C20:retry:{view}:refused-write-stored", rc, hex(base), hex(h.raw()))
+                    continue
+                try:
+                    assign()
+                except Exception as e:  # noqa: BLE001
+                    st.violation(f"C20:retry:{view}:second-attempt-raises:{type(e).__name__}", rc, "stored", repr(e)[:100])
+                    continue
+                if h.raw() != want:
+                    st.violation(f"C20:retry:{view}:{'held-view' if hold else 'fresh-view'}:not-stored", rc, hex(want), hex(h.raw()))
+                    continue
+                st.outcome("retry ok")
+
+
 def run_case(case, st):
-    {"phys": run_phys, "desc": run_desc, "bits": run_bits}[case["part"]](case, st)
+    {"phys": run_phys, "desc": run_desc, "bits": run_bits, "retry": run_retry}[case["part"]](case, st)
 
 
 def finish(st, tier):
